@@ -9,7 +9,7 @@ import MdsVerif.Spec.CursorList
 * every cursor/list method on a well-formed heap: result, new chain, frame.
 -/
 namespace MdsVerif.Proofs.Mlink
-open MdsVerif.Model MdsVerif.Model.Mlink
+open MdsVerif.Model MdsVerif.Model.Mlink MdsVerif.Spec
 
 /-! ## heap algebra -/
 
@@ -162,7 +162,7 @@ theorem atEnd_cell (h : Heap) (pre : List Nat) (p : Nat) (post : List Nat)
 
 theorem get_cell (h : Heap) (pre : List Nat) (p : Nat) (post : List Nat)
     (hs : SegL h (pre ++ p :: post) none) (hn : (pre ++ p :: post).Nodup) :
-    get h p = .ok (match post with | [] => 0 | q :: _ => h.val q) := by
+    Mlink.get h p = .ok ((post.head?.map h.val).getD 0) := by
   have hv := cell_valid h pre p post hs hn
   have hl := cell_link h pre p post none hs
   simp only [Mlink.get, atEnd_cell h pre p post hs hn, bind_ok, hv]
@@ -341,5 +341,331 @@ theorem remove_wf (h : Heap) (pre : List Nat) (p t : Nat) (post : List Nat)
 theorem remove_end (h : Heap) (pre : List Nat) (p : Nat) (hw : WF h (pre ++ [p])) :
     remove h p = .ok (h, 0) := by
   simp [remove, atEnd_cell h pre p [] hw.seg hw.nodup]
+
+/-! ## invalidate / Truncate / Clear -/
+
+/-- on a nil-terminated duplicate-free segment `invalidate` terminates within `|segment| + 1`
+iterations and self-links exactly the cells of the segment -/
+theorem invalidate_seg : ∀ (l : List Nat) (a : Nat) (h : Heap) (fuel : Nat),
+    SegL h (a :: l) none → (a :: l).Nodup → (∀ i ∈ a :: l, i < h.size) → l.length + 2 ≤ fuel →
+    ∃ h', invalidate fuel h (some a) = .ok h' ∧ h'.size = h.size ∧ h'.vals = h.vals ∧
+      ∀ j, h'.link j = if j ∈ a :: l then some j else h.link j := by
+  intro l
+  induction l with
+  | nil =>
+    intro a h fuel hs _ hb hf
+    obtain ⟨f, rfl⟩ : ∃ f, fuel = f + 1 := ⟨fuel - 1, by omega⟩
+    obtain ⟨f, rfl⟩ : ∃ g, f = g + 1 := ⟨f - 1, by omega⟩
+    have hl : h.link a = none := by simpa [SegL] using hs.1
+    refine ⟨h.setLink a (some a), by simp [invalidate, hl], by simp, rfl, ?_⟩
+    intro j
+    rw [link_setLink]
+    have := hb a (by simp)
+    by_cases hj : j = a <;> simp [hj, this]
+  | cons b l ih =>
+    intro a h fuel hs hn hb hf
+    obtain ⟨f, rfl⟩ : ∃ f, fuel = f + 1 := ⟨fuel - 1, by omega⟩
+    have hl : h.link a = some b := by simpa [SegL] using hs.1
+    have ha : a < h.size := hb a (by simp)
+    rw [List.nodup_cons] at hn
+    have hs' : SegL (h.setLink a (some a)) (b :: l) none := by
+      rw [segL_congr h _ (b :: l) _ ?_]
+      · exact hs.2
+      · intro c hc
+        rw [link_setLink]
+        have : c ≠ a := fun e => hn.1 (e ▸ hc)
+        simp [this]
+    obtain ⟨h', e1, e2, e3, e4⟩ := ih b (h.setLink a (some a)) f hs' hn.2
+      (fun i hi => by rw [size_setLink]; exact hb i (by simp [hi])) (by simp at hf ⊢; omega)
+    refine ⟨h', by simp [invalidate, hl, e1], by simpa using e2, by simpa using e3, ?_⟩
+    intro j
+    rw [e4 j, link_setLink]
+    by_cases hj : j ∈ b :: l
+    · simp [hj]
+    · by_cases hja : j = a
+      · simp [hja, ha]
+      · simp [hj, hja]
+
+theorem truncate_wf (h : Heap) (pre : List Nat) (p : Nat) (post : List Nat)
+    (hw : WF h (pre ++ p :: post)) :
+    ∃ h1, truncate h p = .ok h1 ∧ WF h1 (pre ++ [p]) ∧ (∀ j ∈ post, h1.link j = some j) ∧
+      h1.vals = h.vals ∧ h1.size = h.size := by
+  have hv := cell_valid h pre p post hw.seg hw.nodup
+  have hl := cell_link h pre p post none hw.seg
+  have hp : p < h.size := hw.bound p (by simp)
+  have hnd := hw.nodup
+  rw [List.nodup_append] at hnd
+  obtain ⟨hn1, hn2, hn3⟩ := hnd
+  rw [List.nodup_cons] at hn2
+  have hseg := hw.seg
+  rw [segL_append] at hseg
+  -- the heap after the invalidate loop
+  have key : ∃ h', invalidate (h.size + 1) h (h.link p) = .ok h' ∧ h'.size = h.size ∧ h'.vals = h.vals ∧
+      ∀ j, h'.link j = if j ∈ post then some j else h.link j := by
+    cases post with
+    | nil => exact ⟨h, by simp [hl, invalidate], rfl, rfl, by simp⟩
+    | cons a l =>
+      have hlen := hw.len
+      simp only [List.length_append, List.length_cons] at hlen
+      have := invalidate_seg l a h (h.size + 1) hseg.2.2 hn2.2
+        (fun i hi => hw.bound i (by simp only [List.mem_cons] at hi; rcases hi with rfl | hi <;> simp [*])) (by omega)
+      simpa [hl] using this
+  obtain ⟨h', e1, e2, e3, e4⟩ := key
+  have hlk : ∀ j, (h'.setLink p none).link j =
+      if j = p then none else if j ∈ post then some j else h.link j := by
+    intro j
+    rw [link_setLink, e2, e4]
+    by_cases h1 : j = p <;> simp [h1, hp]
+  refine ⟨h'.setLink p none, by simp [truncate, hv, e1], ?_, ?_, by simpa using e3, by simpa using e2⟩
+  · refine ⟨?_, ?_, ?_, ?_, ?_, ?_, ?_⟩
+    · have := hw.head; cases pre <;> simpa using this
+    · rw [segL_append]
+      refine ⟨?_, ?_, trivial⟩
+      · rw [segL_congr h _ pre _ ?_]
+        · simpa using hseg.1
+        · intro a ha
+          have h1 : a ≠ p := fun e => hn3 a ha p (by simp) e
+          have h2 : a ∉ post := fun hm => hn3 a ha a (by simp [hm]) rfl
+          rw [hlk a]; simp [h1, h2]
+      · rw [hlk p]; simp
+    · rw [List.nodup_append]
+      exact ⟨hn1, by simp, fun a ha b hb => hn3 a ha b (by simp at hb; simp [hb])⟩
+    · intro i hi
+      rw [size_setLink, e2]
+      apply hw.bound
+      simp only [List.mem_append, List.mem_singleton] at hi
+      rcases hi with hi | rfl <;> simp [*]
+    · simpa [Heap.setLink, e3] using (show h.vals.length = h'.links.length by
+        have := hw.vlen; simp only [Heap.size] at e2; omega)
+    · have := hw.len
+      simp only [List.length_append, List.length_cons, List.length_nil, size_setLink, e2] at this ⊢
+      omega
+    · intro j hj hn
+      simp only [List.mem_append, List.mem_singleton, not_or] at hn
+      rw [size_setLink, e2] at hj
+      rw [hlk j]
+      simp only [hn.2, if_false]
+      by_cases hm : j ∈ post
+      · simp [hm]
+      · simp only [hm, if_false]
+        exact hw.off j hj (by simp [hn.1, hn.2, hm])
+  · intro j hj
+    rw [hlk j]
+    have : j ≠ p := fun e => hn2.1 (e ▸ hj)
+    simp [this, hj]
+
+theorem clear_eq_truncate (h : Heap) (xs : List Nat) (hw : WF h xs) : clear h = truncate h 0 := by
+  obtain ⟨post, rfl⟩ : ∃ post, xs = 0 :: post := by
+    have := hw.head; cases xs with
+    | nil => simp at this
+    | cons a l => simp at this; exact ⟨l, by rw [this]⟩
+  have := cell_valid h [] 0 post hw.seg hw.nodup
+  simp [clear, truncate, this]
+
+/-! ## the traversal loops never run out of fuel on a well-formed chain -/
+
+theorem eachLoop_seg : ∀ (post pre : List Nat) (p : Nat) (h : Heap) (fuel : Nat) (stop : Option Nat),
+    SegL h (pre ++ p :: post) none → (pre ++ p :: post).Nodup → post.length + 1 ≤ fuel →
+    eachLoop fuel h p stop =
+      .ok ((match stop with | none => post | some k => post.take (k + 1)).map h.val) := by
+  intro post
+  induction post with
+  | nil =>
+    intro pre p h fuel stop hs hn hf
+    obtain ⟨f, rfl⟩ : ∃ f, fuel = f + 1 := ⟨fuel - 1, by omega⟩
+    simp only [eachLoop, atEnd_cell h pre p [] hs hn, List.isEmpty_nil, bind_ok, if_true]
+    cases stop <;> simp
+  | cons q r ih =>
+    intro pre p h fuel stop hs hn hf
+    obtain ⟨f, rfl⟩ : ∃ f, fuel = f + 1 := ⟨fuel - 1, by omega⟩
+    simp only [eachLoop, atEnd_cell h pre p (q :: r) hs hn, get_cell h pre p (q :: r) hs hn,
+      next_cell h pre p q r hs hn, List.isEmpty_cons, bind_ok]
+    have ih' := fun st => ih (pre ++ [p]) q h f st (by simpa using hs) (by simpa using hn)
+      (by simp at hf; omega)
+    cases stop with
+    | none => simp [ih']
+    | some k =>
+      cases k with
+      | zero => simp
+      | succ k => simp [ih']
+
+theorem atLoop_seg : ∀ (post pre : List Nat) (p : Nat) (h : Heap) (fuel n : Nat),
+    SegL h (pre ++ p :: post) none → (pre ++ p :: post).Nodup → post.length + 1 ≤ fuel →
+    ∃ pre' p' post', pre ++ p :: post = pre' ++ p' :: post' ∧ pre'.length = pre.length + min n post.length ∧
+      atLoop fuel h p n = .ok p' := by
+  intro post
+  induction post with
+  | nil =>
+    intro pre p h fuel n hs hn hf
+    obtain ⟨f, rfl⟩ : ∃ f, fuel = f + 1 := ⟨fuel - 1, by omega⟩
+    exact ⟨pre, p, [], rfl, by simp, by simp [atLoop, atEnd_cell h pre p [] hs hn]⟩
+  | cons q r ih =>
+    intro pre p h fuel n hs hn hf
+    obtain ⟨f, rfl⟩ : ∃ f, fuel = f + 1 := ⟨fuel - 1, by omega⟩
+    cases n with
+    | zero => exact ⟨pre, p, q :: r, rfl, by simp, by simp [atLoop, atEnd_cell h pre p (q :: r) hs hn]⟩
+    | succ m =>
+      obtain ⟨pre', p', post', e1, e2, e3⟩ := ih (pre ++ [p]) q h f m (by simpa using hs) (by simpa using hn)
+        (by simp at hf; omega)
+      refine ⟨pre', p', post', by simpa using e1, ?_, ?_⟩
+      · simp only [List.length_append, List.length_cons, List.length_nil] at e2 ⊢
+        omega
+      · simp [atLoop, atEnd_cell h pre p (q :: r) hs hn, next_cell h pre p q r hs hn, e3]
+
+theorem each_wf (h : Heap) (ids : List Nat) (hw : WF h (0 :: ids)) (stop : Option Nat) :
+    each h stop = .ok ((match stop with | none => ids | some k => ids.take (k + 1)).map h.val) := by
+  have := hw.len
+  simp only [List.length_cons] at this
+  exact eachLoop_seg ids [] 0 h (h.size + 1) stop hw.seg hw.nodup (by omega)
+
+theorem peek_wf (h : Heap) (ids : List Nat) (hw : WF h (0 :: ids)) (n : Nat) :
+    peek h n = .ok (match (ids.map h.val)[n]? with | some v => (v, true) | none => (0, false)) := by
+  have hlen := hw.len
+  simp only [List.length_cons] at hlen
+  obtain ⟨pre', p', post', e1, e2, e3⟩ :=
+    atLoop_seg ids [] 0 h (h.size + 1) n hw.seg hw.nodup (by omega)
+  have hs := hw.seg
+  have hn := hw.nodup
+  simp only [List.nil_append] at e1
+  rw [e1] at hs hn
+  simp only [peek, at_, e3, bind_ok, get_cell h pre' p' post' hs hn, atEnd_cell h pre' p' post' hs hn]
+  simp only [List.length_nil, Nat.zero_add] at e2
+  -- read `ids[n]?` off the split
+  have hids : ids = (pre' ++ p' :: post').tail := by rw [← e1]; rfl
+  have hl : ids.length = pre'.length + post'.length := by rw [hids]; simp
+  by_cases hlt : n < ids.length
+  · have hpl : pre'.length = n := by omega
+    have hpost : post' ≠ [] := by intro e; simp [e] at hl; omega
+    obtain ⟨q, r, rfl⟩ := List.exists_cons_of_ne_nil hpost
+    have : ids[n]? = some q := by
+      rw [hids]
+      cases pre' with
+      | nil => simp at hpl; subst hpl; simp
+      | cons a l =>
+        simp only [List.length_cons] at hpl
+        simp only [List.cons_append, List.tail_cons]
+        rw [List.getElem?_append_right (by omega)]
+        have : n - l.length = 1 := by omega
+        simp [this]
+    simp [this]
+  · have hpl : pre'.length = ids.length := by omega
+    have hpost : post' = [] := by
+      have : post'.length = 0 := by omega
+      exact List.length_eq_zero_iff.mp this
+    subst hpost
+    rw [List.getElem?_eq_none (by simp; omega)]
+    simp
+
+/-! ## `mlink.Queue` -/
+
+/-- the queue invariant: well-formed list, `back` is the end cursor (its `pred` is the last cell of the
+chain; the zero value's nil `pred` stands for the sentinel), `size` is the length -/
+structure QInv (q : Q) (xs : List Nat) : Prop where
+  wf : WF q.h xs
+  back : xs.getLast? = some q.backPred
+  size : q.size = (xs.length : Int) - 1
+
+theorem qinv_zero : QInv {} [0] := ⟨wf_empty.1, rfl, rfl⟩
+theorem qinv_new : QInv Q.new [0] := ⟨wf_empty.1, rfl, rfl⟩
+
+theorem xs_cons (h : Heap) (xs : List Nat) (hw : WF h xs) : ∃ ids, xs = 0 :: ids := by
+  have := hw.head
+  cases xs with
+  | nil => simp at this
+  | cons a l => simp at this; exact ⟨l, by rw [this]⟩
+
+theorem qadd_inv (q : Q) (xs : List Nat) (v : Int) (hi : QInv q xs) :
+    ∃ xs', QInv (qadd q v).1 xs' ∧ (qadd q v).2 = .unit ∧ abs (qadd q v).1.h xs' = abs q.h xs ++ [v] := by
+  obtain ⟨pre, hx⟩ := List.getLast?_eq_some_iff.mp hi.back
+  generalize hb : q.backPred = b at hx
+  subst hx
+  obtain ⟨h1, e1, w1, s1, v1, v2⟩ := push_wf q.h pre b [] v hi.wf
+  have hn := next_cell h1 pre b q.h.size [] w1.seg w1.nodup
+  refine ⟨pre ++ [b, q.h.size], ?_, ?_, ?_⟩
+  · simp only [qadd, hb, add, e1, bind_ok, hn]
+    refine ⟨w1, ?_, ?_⟩
+    · simp [Q.backPred]
+    · have := hi.size
+      simp only [List.length_append, List.length_cons, List.length_nil] at this ⊢
+      push_cast at this ⊢
+      omega
+  · simp [qadd, hb, add, e1, hn]
+  · simp only [qadd, hb, add, e1, bind_ok, hn, abs]
+    have : (pre ++ [b, q.h.size]).tail = (pre ++ [b]).tail ++ [q.h.size] := by cases pre <;> simp
+    rw [this, List.map_append]
+    congr 1
+    · apply List.map_congr_left
+      intro j hj
+      apply v2
+      have := hi.wf.bound j (List.mem_of_mem_tail hj)
+      omega
+    · simp [v1]
+
+theorem qpop_inv (q : Q) (xs : List Nat) (hi : QInv q xs) :
+    ∃ xs', QInv (qpop q).1 xs' ∧
+      CursorList.qstep (abs q.h xs) .pop = (abs (qpop q).1.h xs', (qpop q).2) := by
+  obtain ⟨ids, rfl⟩ := xs_cons q.h xs hi.wf
+  have hg := get_cell q.h [] 0 ids hi.wf.seg hi.wf.nodup
+  have ha := atEnd_cell q.h [] 0 ids hi.wf.seg hi.wf.nodup
+  cases ids with
+  | nil =>
+    refine ⟨[0], ?_, ?_⟩
+    · simpa [qpop, hg, ha] using hi
+    · simp [qpop, hg, ha, CursorList.qstep, abs]
+  | cons t r =>
+    obtain ⟨h1, e1, w1, l1, v1, s1⟩ := remove_wf q.h [] 0 t r hi.wf
+    have hem : isEmpty h1 = r.isEmpty := by
+      have := cell_link h1 [] 0 r none w1.seg
+      simp only [isEmpty, this]; cases r <;> simp
+    refine ⟨0 :: r, ?_, ?_⟩
+    · simp only [qpop, hg, ha, List.isEmpty_cons, e1, hem]
+      have hsz : q.size - 1 = ((0 :: r).length : Int) - 1 := by
+        have := hi.size; simp only [List.length_cons] at this ⊢; push_cast at this ⊢; omega
+      cases r with
+      | nil => exact ⟨w1, rfl, hsz⟩
+      | cons a l =>
+        refine ⟨w1, ?_, hsz⟩
+        have := hi.back
+        simpa [List.getLast?_cons_cons, Q.backPred] using this
+    · simp only [qpop, hg, ha, List.isEmpty_cons, e1, hem, CursorList.qstep, abs, List.tail_cons, List.map_cons]
+      have : List.map h1.val r = List.map q.h.val r := by
+        apply List.map_congr_left; intro j _; simp [Heap.val, v1]
+      cases r <;> simp [this]
+
+theorem qclear_inv (q : Q) (xs : List Nat) (hi : QInv q xs) :
+    QInv (qclear q).1 [0] ∧ (qclear q).2 = .unit ∧ abs (qclear q).1.h [0] = [] := by
+  obtain ⟨ids, rfl⟩ := xs_cons q.h xs hi.wf
+  obtain ⟨h1, e1, w1, _, _, _⟩ := truncate_wf q.h [] 0 ids hi.wf
+  rw [← clear_eq_truncate q.h _ hi.wf] at e1
+  have hq : qclear q = ({ h := h1, back := some 0, size := 0 }, .unit) := by simp [qclear, e1]
+  rw [hq]
+  exact ⟨⟨w1, rfl, rfl⟩, rfl, rfl⟩
+
+/-! ## F7 regression: without the `checkValid` the stale `Truncate` never returns -/
+
+theorem invalidate_selfloop (e : Nat) : ∀ (fuel : Nat) (h : Heap), e < h.size → h.link e = some e →
+    invalidate fuel h (some e) = .hang := by
+  intro fuel
+  induction fuel with
+  | zero => intro h _ _; rfl
+  | succ f ih =>
+    intro h hlt hl
+    simp only [invalidate, hl]
+    apply ih
+    · simpa using hlt
+    · rw [link_setLink]; simp [hlt]
+
+theorem set_self {α : Type} (l : List (Option α)) (c : Nat) (p : α) (hc : l.getD c none = some p) :
+    l.set c (some p) = l := by
+  induction l generalizing c with
+  | nil => rfl
+  | cons a l ih =>
+    cases c with
+    | zero => simp at hc; simp [hc]
+    | succ c => simp at hc; simp [ih c (by simpa using hc)]
+
+theorem setReg_self (s : St) (c p : Nat) (hc : s.reg c = some p) : ({ s with h := s.h } : St).setReg c p = s := by
+  cases s with
+  | mk h regs => simp only [St.setReg, St.reg] at hc ⊢; rw [set_self regs c p hc]
 
 end MdsVerif.Proofs.Mlink
